@@ -88,6 +88,9 @@ func KindOf(obj runtime.Object) string {
 	panic(fmt.Sprintf("symclient: unsupported object type %T", obj))
 }
 
+// CopyInto deep-copies src into dst (same concrete type).
+func CopyInto(src, dst client.Object) { copyInto(src, dst) }
+
 func copyInto(src, dst client.Object) {
 	switch s := src.(type) {
 	case *apps.Deployment:
